@@ -164,7 +164,9 @@ MESSAGES = ("boom", "", "é\"\\\n", "x" * 300)
 STAGES = ("parse", "validate", "operation-selection", "variable-coercion", "resolver-error", "non-null", "list-item", "float-nan", "float-inf", "resolver-error-ext",
           "variable-coercion-multi", "validate-multi-node", "validate-multi-error", "subscription-operation", "mutation-without-mutation-type",
           # (appended) a nullable variable with a default may feed `if: Boolean!`; an explicit null for it passes validation and variable coercion and fails when the directive is evaluated
-          "directive-null-root", "directive-null-root-fragment", "directive-null-nested", "directive-null-mutation")
+          "directive-null-root", "directive-null-root-fragment", "directive-null-nested", "directive-null-mutation",
+          # (appended) a leaf whose SERIALISED value is null although the resolved value is not (a custom scalar's serialize returning None)
+          "serialized-null")
 
 
 def failure_schema(msg, ext, own_path=False):
@@ -173,9 +175,12 @@ def failure_schema(msg, ext, own_path=False):
         if own_path:
             raise ResolverError(msg, path=["made", "up", 7], extensions=ext)
         raise ResolverError(msg, extensions=ext)
-    obj = ObjectType("Obj", [Field("x", Int), Field("bad", Int, resolver=boom), Field("nn", NonNullType(Int))])
+    from py_gql.schema import ScalarType
+    maybe = ScalarType("Maybe", serialize=lambda v: None if v == "gone" else v, parse=lambda v: v)
+    obj = ObjectType("Obj", [Field("x", Int), Field("bad", Int, resolver=boom), Field("nn", NonNullType(Int)), Field("sn", NonNullType(maybe)), Field("sm", maybe)])
     q = ObjectType("Query", [
         Field("o", obj), Field("l", ListType(obj)), Field("bad", Int, resolver=boom), Field("nn", NonNullType(Int)),
+        Field("sn", NonNullType(maybe)), Field("sl", ListType(NonNullType(maybe))), Field("sm", maybe),
         Field("f", Float), Field("fs", ListType(Float)), Field("a", Int), Field("s", String),
     ])
     if msg == "<mutation root>":
@@ -211,7 +216,7 @@ def _failures(stage: int, m: int, cfg: int, ext: int, ast: bool = False, own_pat
     with untraced():
         EXT = make_extensions(EK)
         schema = failure_schema("<mutation root>" if ST == "directive-null-mutation" else MSG, EXT, OP)
-        root = {"o": {"x": 1, "nn": None}, "l": [{"x": 1, "nn": 2}, None, {"x": 3, "nn": None}], "nn": None, "a": 1, "s": "t",
+        root = {"sn": "gone", "sm": "gone", "sl": ["kept", "gone", "kept"], "o": {"x": 1, "nn": None, "sn": "gone", "sm": "gone"}, "l": [{"x": 1, "nn": 2}, None, {"x": 3, "nn": None}], "nn": None, "a": 1, "s": "t",
                 "f": float("nan") if ST == "float-nan" else (float("inf") if ST == "float-inf" else 1.5), "fs": [1.0, float("-inf")] if ST.startswith("float") else [1.0]}
         query, variables, opname, expect_data = {
             "parse": ("{ a ", None, None, False),
@@ -233,6 +238,7 @@ def _failures(stage: int, m: int, cfg: int, ext: int, ast: bool = False, own_pat
             "directive-null-root-fragment": ("query ($v: Boolean = true) { a ... @include(if: $v) { s } }", {"v": None}, None, None),
             "directive-null-nested": ("query ($v: Boolean = true) { a o { x @include(if: $v) } l { x } }", {"v": None}, None, None),
             "directive-null-mutation": ("mutation ($v: Boolean = true) { a ...F @skip(if: $v) } fragment F on Query { s }", {"v": None}, None, None),
+            "serialized-null": ("{ a sn sm o { x sn sm } sl }", None, None, True),
         }[ST]
         if ST == "subscription-operation" and known.c10_subscription_through_query_entry_point():
             return result(True, False)
@@ -251,6 +257,7 @@ def _failures(stage: int, m: int, cfg: int, ext: int, ast: bool = False, own_pat
             nulls = sorted(nulls_in(resp["data"]), key=repr)
             paths = sorted((tuple(e["path"]) for e in resp.get("errors", []) if "path" in e), key=repr)
             expected_nulls = [p for p in nulls if not (p and p[-1] == 1 and p[0] == "l" and len(p) == 2)]   # l[1] is a plain null item
+            expected_nulls = [p for p in expected_nulls if p[-1] != "sm"]                                   # sm is nullable: a serialised null there is just null
             if paths != expected_nulls:
                 problem = "nulls %r vs error paths %r" % (nulls, paths)
         if not problem and ST == "resolver-error-ext" and EXT:
